@@ -126,4 +126,11 @@ CHECKS['C10'] = dict(
          'every place. argv, stdin and cwd logged at the seam must equal the denoted ones and exit-code / stdout / stderr assertions on the scripted output must pass. '
          '~80 cases are re-run with a real process (compiled probe dumping argv/stdin/cwd) and must agree with the virtual log.',
     note='Environment sets belong to C11; output of real processes is only compared for argv/stdin/cwd.')
+CHECKS['C20'] = dict(
+    level='exploration',
+    technique='complete enumeration of a finite domain through the real CLI: every (phase, candidate name), suite (section, name), entity, builtin symbol, help request and HTML href/id',
+    text='Accepted instruction names are determined behaviourally per phase (a one-line case; "Unknown instruction" <=> rejected) for every candidate name (help listings, public '
+         'instruction tables, bogus names) and must equal the names the help lists for that phase; every listed item\'s help page must display (exit 0, stdout, no stderr); builtin '
+         'symbols listed <=> usable without definition; in `help htmldoc` every href="#x" has exactly one anchor and no anchor occurs twice.',
+    note='Listing formats of the help output are parsed by the harness (first column).')
 NOT_APPLICABLE = {}
